@@ -433,6 +433,8 @@ def run(ctx) -> None:
     # "every payload octet string": the JSON extraction accepts every base64url payload member, the empty one included (C01's extraction rule)
     from .c01 import r01_7
     ctx.guard_as("R03.10", r01_7)
+    from .c01 import r01_7b
+    ctx.guard_as("R03.10", r01_7b)
     # "every key of the type the algorithm requires", "every admissible header": verify() refuses only on an exact octet length; the header codec
     # encodes every JSON string (C07 R07.12, C19 R19.4 / R19.5)
     from .c07 import r07_12
